@@ -896,3 +896,41 @@ func (in *Interp) needsCong(t *Term) bool {
 	}
 	return in.tt.usesHardArith(t, in.hardMemo)
 }
+
+// sort.Sort under its documented contract ("not guaranteed to be stable"): the
+// result is any permutation of the input that is ordered with respect to Less.
+func init() {
+	intrinsics["sort.Sort"] = func(in *Interp, c *callCtx) Value {
+		if !in.cfg.SortContract {
+			in.pushFrame(c.g, c.fn, c.args, nil, c.retTo)
+			panic(framePushed{})
+		}
+		data := c.args[0].(Iface)
+		if data.t == nil {
+			in.goPanic(c.g, "nil", "sort.Sort(nil)", nil)
+			return nil
+		}
+		mLen, mLess, mSwap := in.findMethod(data.t, "Len"), in.findMethod(data.t, "Less"), in.findMethod(data.t, "Swap")
+		nT := in.callSync(c.g, &Closure{fn: mLen}, []Value{data.v}).(*Term)
+		if !nT.IsConst() {
+			in.unsupported("sort.Sort of symbolic length")
+		}
+		n := int(nT.I64())
+		if n > 5 {
+			panic(pathEnd{kind: "unwind", msg: "sort contract stub limited to 5 elements"})
+		}
+		k := func(i int) Value { return in.tt.Const(64, uint64(i)) }
+		for i := 0; i < n-1; i++ {
+			j := i + in.decideFree(n-i)
+			if j != i {
+				in.callSync(c.g, &Closure{fn: mSwap}, []Value{data.v, k(i), k(j)})
+			}
+		}
+		for i := 0; i+1 < n; i++ {
+			lt := in.callSync(c.g, &Closure{fn: mLess}, []Value{data.v, k(i + 1), k(i)}).(*Term)
+			in.assume(in.tt.Not(lt))
+		}
+		in.stubsHit["sort.Sort contract: any permutation ordered w.r.t. Less"]++
+		return nil
+	}
+}
